@@ -76,9 +76,11 @@ def generate(tier, wd, seed, fname="table.ndjson"):
         gen_states += r.distinct
     # larger multigraphs than the enumeration reaches: random draws (5..8 edges, up to 6 labels) and the named catalogue
     rruns = ([dict(V=5, EMIN=5, EMAX=7, WSET={6, 8, 10, 12}, WD=4, DSET={1, 2, 3}, EXTV=5, NSAMP=150),
-              dict(V=6, EMIN=8, EMAX=8, WSET={8, 10, 12}, WD=4, DSET={1, 2}, EXTV=6, NSAMP=12)] if tier == "quick" else
+              dict(V=6, EMIN=8, EMAX=8, WSET={8, 10, 12}, WD=4, DSET={1, 2}, EXTV=6, NSAMP=12),
+              dict(V=7, EMIN=9, EMAX=10, WSET={6, 8, 9, 10, 12}, WD=4, DSET={1, 2}, EXTV=7, NSAMP=6)] if tier == "quick" else
              [dict(V=5, EMIN=5, EMAX=7, WSET={6, 8, 10, 12}, WD=4, DSET={1, 2, 3, 4}, EXTV=5, NSAMP=3000),
-              dict(V=6, EMIN=8, EMAX=9, WSET={8, 10, 12}, WD=4, DSET={1, 2, 3}, EXTV=6, NSAMP=150)])
+              dict(V=6, EMIN=8, EMAX=9, WSET={8, 10, 12}, WD=4, DSET={1, 2, 3}, EXTV=6, NSAMP=150),
+              dict(V=7, EMIN=10, EMAX=11, WSET={6, 8, 9, 10, 12}, WD=4, DSET={1, 2}, EXTV=7, NSAMP=30)])
     # non-dyadic weights on up to 7 labels (subsets with three and more components: float sums whose value depends on
     # the order of summation) and weights down to 2^-28 (numerical range)
     rruns.append(dict(V=7, EMIN=5, EMAX=7, WSET={4, 8, 16, 20, 28}, WD=12, DSET={1, 2}, EXTV=7, NSAMP=60 if tier == "quick" else 1500))
